@@ -43,7 +43,7 @@ DataSafe ==
      /\ dst[i] = "complete" \/ envTouched[i]
      /\ dstClosedOk[i]
      /\ CSync => (dstSynced[i] /\ dirSynced[i])
-     /\ ~ioFailed[i]
+     /\ ~ioFailed[i] /\ ~dstDamaged[i]
      /\ cfg.input[i] = "good"
 
 \* A failed read/write/seek/sync/close never costs the source ...
@@ -64,6 +64,9 @@ KeepNeverRemoves == CKeep => \A i \in Files : src[i] # "absent"
 \* xz never unlinks a file it did not open/create, and never touches an existing target without --force
 NoForeignLost == ~lostForeign
 NoOverwrite == \A i \in Files : (cfg.pre[i] /\ ~cfg.force /\ ~cfg.stdout) => dst[i] = "foreign"
+\* the sparse-file bookkeeping is per file: nothing of an earlier (failed) file is pending when a target is created
+PendingHoleFresh == (hole \notin {0, cur} => pc \in {"main", "x_close2", "x_exit", "x_raise", "x_died"} \cup Terminal)
+                    /\ (pc \in {"open_src", "first_read", "inited", "open_dst", "fstat_dst", "unblock_od"} => hole = 0)
 \* house-keeping between files
 CleanBetweenFiles == pc = "main" => ~srcOpen /\ ~dstOpen /\ ~dirOpen /\ (sigBlocked <=> blip)
 \* a signal that was seen before the work was finished ends the process by that signal
